@@ -6,7 +6,7 @@ SPEC = {
                 "deadline": {"quick": 300, "thorough": 2400}}],
     "technique": "explicit-state BFS to fixpoint over the implementation with lock-step reference model",
     "rule": ("per configuration (datagram of n<=4 (quick) / 5 (thorough) 8-byte units + tail, protocol UDP/ICMP/TCP/unknown, EVERY "
-             "composition into >= 2 fragments, optional second datagram differing in id / source / direction / protocol, bare IP or "
+             "composition into >= 2 fragments, optional second datagram differing in id / source / direction / destination, bare IP or "
              "Ethernet root) a BFS to fixpoint over the real IPv4Reassembler (copied per state) x reference reassembler; events = every "
              "fragment of either datagram (re-sendable: duplicates, also after completion), an unfragmented packet, a non-IP packet, an "
              "MF|DF stray fragment; on every transition: status = reference status; on REASSEMBLED: header = first fragment's with "
